@@ -92,6 +92,16 @@ def sched(rng):
     return [rng.choice([1, 1, 2, 3, 5, 7, 16, 24, 40, 64, 100, 1000, 4096]) for _ in range(rng.randrange(1, 6))]
 
 
+def big_sizes(rng, sc):
+    """payload sizes the model can afford for a schedule: it re-measures its buffers on every chunk"""
+    m = min(sc)
+    if m >= 4096 and rng.random() < 0.12:
+        return [65535, 65536, 65537, 66000]
+    if m >= 64 and rng.random() < 0.1:
+        return [3000, 5000]
+    return None
+
+
 def fmt_sched(s):
     return "F %d %s" % (len(s), " ".join(map(str, s)))
 
@@ -119,9 +129,10 @@ def v1_cases(rng, tier, P, MAG):
         chain = rng.randrange(5)
         nm = rng.choice([1, 1, 2, 3, 5])
         items, offs, pos = [], [], 0
+        sc = sched(rng)
         for _k in range(nm):
             t = rtype(rng)
-            ps, ln = pspec(rng, None if rng.random() < 0.93 else [65535, 65536, 65537, 66000])
+            ps, ln = pspec(rng, big_sizes(rng, sc))
             items.append("M %s %s" % (hx(t), ps))
             offs.append((pos, ln))
             pos += 24 + ln
@@ -139,7 +150,7 @@ def v1_cases(rng, tier, P, MAG):
                 elif region == "payload": off = o + 24 + (rng.randrange(ln) if ln else 0)
                 else: off = rng.randrange(max(1, pos))
                 flips.append((off, rng.randrange(8)))
-        cases.append("v1 %d %s %s I %d %s" % (chain, fmt_sched(sched(rng)), fmt_flips(flips), len(items), " ".join(items)))
+        cases.append("v1 %d %s %s I %d %s" % (chain, fmt_sched(sc), fmt_flips(flips), len(items), " ".join(items)))
     # crafted frames
     def hdr(magic, typ, size, cks):
         return magic + typ.ljust(12, b"\0")[:12] + size.to_bytes(4, "little") + cks
@@ -190,6 +201,7 @@ def v2_cases(rng, tier, P):
         gspec = "-" if glen == 0 else "r%d:%d" % (glen, rng.randrange(1, 1 << 40))
         rgarb = rng.choice([0, 0, 1, 16, 40, 300]) if rng.random() < 0.97 else rng.choice([4094, 4095])
         pk = []
+        sc = sched(rng)
         layout = []   # (offset, total_len) of each packet on the wire
         pos = 64 + glen + 16
         # decoys before the version packet, version, then application packets with decoys in between
@@ -206,7 +218,7 @@ def v2_cases(rng, tier, P):
             if rng.random() < 0.25:
                 add(1, bytes(rng.randrange(256) for _ in range(rng.choice([0, 1, 13]))), pspec(rng, [0, 3, 40])[0])
             r = rng.random()
-            ps = pspec(rng, None if rng.random() < 0.95 else [65536, 66000])[0]
+            ps = pspec(rng, big_sizes(rng, sc))[0]
             if r < 0.45: add(0, contents_for(rng, rng.choice(TYPES + ["feature"])), ps)
             elif r < 0.6: add(0, contents_for(rng, rng.choice(OTHER)), ps)
             elif r < 0.72: add(0, bytes([rng.choice([28, 29, 30, 36, 37, 38, 39, 40, 127, 128, 254, 255])]), ps)
@@ -236,7 +248,7 @@ def v2_cases(rng, tier, P):
             r = rng.random()
             t = rng.choice(TYPES + ["feature"]) if r < 0.6 else (rng.choice(OTHER) if r < 0.85 else rtype(rng).decode("latin1"))
             tx.append("%s %s" % (hx(t.encode("latin1")), pspec(rng)[0]))
-        cases.append("v2 %d %d %d %d %d G %s %s %s P %d %s S %d %s" % (chain, rinit, rseed, rgarb, pseed, gspec, fmt_sched(sched(rng)), fmt_flips(flips),
+        cases.append("v2 %d %d %d %d %d G %s %s %s P %d %s S %d %s" % (chain, rinit, rseed, rgarb, pseed, gspec, fmt_sched(sc), fmt_flips(flips),
                                                                     len(pk), " ".join(pk), len(tx), " ".join(tx)))
     # every short id once through the receiver, every table type once through the sender
     for b in range(1, 256):
@@ -247,7 +259,7 @@ def v2_cases(rng, tier, P):
     for ln in (MAXC - 1, MAXC, MAXC + 1, (1 << 24) - 1):
         for rinit in (0, 1):
             cases.append("v2 4 %d 5 0 6 G - F 1 1048576 X 0 P 3 0 - - 0 12 h00 0 T %d S 0" % (rinit, ln))
-            cases.append("v2 4 %d 5 0 6 G r3:1 F 1 1 X 0 P 2 0 T %d S 0" % (rinit, ln))
+            cases.append("v2 4 %d 5 0 6 G r3:1 F 1 1 X 0 P 1 0 T %d S 0" % (rinit, ln))
     # garbage boundary with a damaged terminator: fails exactly when 4095+16 bytes have been scanned
     for glen in (4094, 4095):
         for fill in (0, 1, 2, 40):
